@@ -113,6 +113,9 @@ func (o *Obligation) smtText(withModel bool) string {
 		}
 	}
 	sort.Strings(axs)
+	if o.Cover {
+		axs = nil // satisfiability covers are decided without quantified axioms
+	}
 	all := text + strings.Join(axs, "")
 	// string literal facts
 	var lits []string
@@ -138,14 +141,16 @@ func (o *Obligation) smtText(withModel bool) string {
 	}
 	all += litFacts.String()
 	builtin := ""
-	if strings.Contains(all, "(blen ") && u.d.has("bytesof") {
+	if o.Cover {
+		// no quantified built-ins either
+	} else if strings.Contains(all, "(blen ") && u.d.has("bytesof") {
 		builtin = "(assert (forall ((r!b (Array Int Int)) (o!b Int) (l!b Int)) (=> (>= l!b 0) (= (blen (bytesof r!b o!b l!b)) l!b))))\n"
 		all += builtin
 	}
-	if strings.Contains(all, "(slen ") || u.d.has("slen") && strings.Contains(all, "slen") {
+	if !o.Cover && (strings.Contains(all, "(slen ") || u.d.has("slen") && strings.Contains(all, "slen")) {
 		builtin += "(assert (forall ((s!sl Str)) (! (<= 0 (slen s!sl)) :pattern ((slen s!sl)))))\n"
 	}
-	if strings.Contains(all, "(sconcat ") {
+	if !o.Cover && strings.Contains(all, "(sconcat ") {
 		u.d.Fun("slen", []Sort{SStr}, SInt)
 		builtin += "(assert (forall ((a!sc Str) (b!sc Str)) (! (= (slen (sconcat a!sc b!sc)) (+ (slen a!sc) (slen b!sc))) :pattern ((sconcat a!sc b!sc)))))\n"
 	}
